@@ -58,12 +58,13 @@ def merge():
     for f in sorted(os.listdir("/verif/work")):
         if f.startswith("regress_shard_") and f.endswith(".jsonl"):
             rows += [json.loads(l) for l in open("/verif/work/" + f)]
+    rows = list({r[0]: r for r in rows}.values())
     rows.sort(key=lambda r: r[0])
     with open("/verif/seeded/SCOREBOARD.md", "w") as f:
         f.write("# Seeded defects vs the quick tier of their property's check\n\nProduced by `seeded_regress.py` (patch applied to a scratch worktree, harness rebuilt against it, the property's quick instruments run with seed 1 in the order of checks_table.py, first detecting instrument shown).\n\n| id | verdict | first detecting instrument: evidence |\n|---|---|---|\n")
         for sid, v, by, _ in rows:
             f.write("| %s | %s | %s |\n" % (sid, v, by.replace("|", "\\|")[:300]))
-        f.write("\n%d of %d detected.\n" % (sum(1 for r in rows if r[1] == "detected"), len(rows)))
+        f.write("\n%d of %d detected, %d neutralised by a later fix.\n" % (sum(1 for r in rows if r[1] == "detected"), len(rows), sum(1 for r in rows if r[1] == "neutralised")))
     print("%d of %d detected" % (sum(1 for r in rows if r[1] == "detected"), len(rows)))
 
 def main():
@@ -73,15 +74,32 @@ def main():
     if sys.argv[1:2] == ["--shard"]:
         shard = (int(sys.argv[2]), int(sys.argv[3])); del sys.argv[1:4]
     sel = sys.argv[1:]
-    ids = sorted(d for d in os.listdir("/verif/seeded") if os.path.isfile("/verif/seeded/%s/patch.diff" % d) and (not sel or any(d.startswith(s) for s in sel)))
+    if sel == ["--missing"]:
+        # everything archived that no shard file has a row for yet, plus earlier MISSED rows (instruments may have changed)
+        done = {}
+        for f in sorted(os.listdir("/verif/work")):
+            if f.startswith("regress_shard_") and f.endswith(".jsonl"):
+                for l in open("/verif/work/" + f):
+                    r = json.loads(l); done[r[0]] = r[1]
+        sel = [d + "$" for d in sorted(os.listdir("/verif/seeded")) if os.path.isfile("/verif/seeded/%s/patch.diff" % d) and done.get(d) not in ("detected", "neutralised")]
+        shard = (0, 1)
+        os.environ["REGRESS_OUT"] = "/verif/work/regress_shard_9.jsonl"
+    ids = sorted(d for d in os.listdir("/verif/seeded") if os.path.isfile("/verif/seeded/%s/patch.diff" % d) and (not sel or any((d == s[:-1]) if s.endswith("$") else d.startswith(s) for s in sel)))
     rows = []
     if shard:
         ids = [x for i, x in enumerate(ids) if i % shard[1] == shard[0]]
         os.makedirs("/verif/work", exist_ok=True)
-        outf = open("/verif/work/regress_shard_%d.jsonl" % shard[0], "w")
+        outf = open(os.environ.get("REGRESS_OUT", "/verif/work/regress_shard_%d.jsonl" % shard[0]), "w")
     for sid in ids:
         pid = sid.split("-")[0]
         t0 = time.time()
+        meta = json.load(open("/verif/seeded/%s/meta.json" % sid)) if os.path.isfile("/verif/seeded/%s/meta.json" % sid) else {}
+        if meta.get("neutralised_by"):
+            rows.append((sid, "neutralised", meta["neutralised_by"][:200], 0.0))
+            print("%s neutralised" % sid, flush=True)
+            if shard:
+                outf.write(json.dumps(rows[-1]) + "\n"); outf.flush()
+            continue
         err = prepare("/verif/seeded/%s/patch.diff" % sid)
         verdict, by = "MISSED", ""
         if err:
